@@ -5,7 +5,7 @@
    asserts".  All theorems quantify over ALL byte strings / event scripts / service behaviours. *)
 From Coq Require Import Lia.
 From TM Require Import Base Frame Pdu RtuCodec TcpCodec Framed Client Server PduDecode FramedProofs
-  ClientProofs TypedProofs EndToEnd Totality.
+  ClientProofs TypedProofs EndToEnd Totality Histories Slices Bounds BufferBound.
 
 (* the three PDU decoding entry points and the response dispatcher: a value or an error, never a panic *)
 Theorem C03_request_pdu_total : forall bs, dec_req bs <> Panic.
@@ -60,3 +60,35 @@ Proof.
   - exfalso. unfold HEADER_LEN in Hs. rewrite !BaseLemmas.len_cons in Hs. lia.
   - destruct (negb _); injection H as <- <-; discriminate.
 Qed.
+
+(* ---- bounded buffering, all decoders, whole connections ----
+   the RTU decoders ask for more input only below the longest frame their length tables can announce plus the
+   19 bytes one call may drop: 268 + 19 bytes for requests, 65541 + 19 for responses (function 0x18 announces
+   a 16-bit byte count) *)
+Theorem C03_rtu_request_buffer_bound : forall buf b r, bytes_ok buf = true -> 287 <= len buf ->
+  rtu_server_dec buf = (b, r) -> r <> DNone.
+Proof. exact rtu_server_dec_buffer_bound. Qed.
+Theorem C03_rtu_response_buffer_bound : forall buf b r, bytes_ok buf = true -> 65560 <= len buf ->
+  rtu_client_dec buf = (b, r) -> r <> DNone.
+Proof. exact rtu_client_dec_buffer_bound. Qed.
+(* the framing layer over such a decoder: one [next], any script whose read chunks are at most M bytes *)
+Theorem C03_framing_layer_buffer_bounded : forall p M evs st bg r st' evs' bg',
+  bytes_ok (rbuf st) = true -> sok evs -> chunks_le M evs ->
+  rerrored st = false -> rinv (server_bound p) st -> len (rbuf st) < server_bound p + M ->
+  next (server_dec p) st evs bg = (r, st', evs', bg') ->
+  len (rbuf st') < server_bound p + M /\ (rerrored st' = false -> rinv (server_bound p) st') /\ bytes_ok (rbuf st') = true
+  /\ sok evs' /\ chunks_le M evs'.
+Proof.
+  intros p M. exact (next_bounded (server_dec p) (server_bound p) M (server_bound_pos p) (server_dec_total p)
+                       (seg_suf _ _ (server_dec_seg p)) (server_dec_bound p)).
+Qed.
+(* a server connection, however many requests it serves: the receive buffer stays below one maximal frame
+   (65542 bytes TCP, 287 bytes RTU) plus one read chunk *)
+Theorem C03_server_connection_buffer_bounded : forall p M n q is st' q',
+  sok q -> chunks_le M q -> take_items (server_dec p) n rstate0 q = Some (is, st', q') ->
+  len (rbuf st') < server_bound p + M.
+Proof. exact server_buffer_bounded. Qed.
+(* a client, after ANY history of calls (completed, failed, abandoned), slave changes and disconnects *)
+Theorem C03_client_buffer_bounded : forall p m M slave ops, Forall (op_ok M) ops ->
+  len (rbuf (rst (run_ops p m (client_new p slave) ops))) < client_bound p + M.
+Proof. exact client_buffer_never_exceeds. Qed.
